@@ -1,6 +1,6 @@
 import Driver.Proto
 import SsqlVerif.Model.GroupKey
-import SsqlVerif.Model.GroupAgg
+import SsqlVerif.Model.GroupPartition
 set_option autoImplicit false
 open Proto GroupKey
 
@@ -65,6 +65,6 @@ def normRows (rows : List Row) : List Row := rows.map fun r => (normTuple r.1, r
 
 /-- model of the aggregator on one batch -/
 def aggResults (rows : List Row) : List (List Val × List Int) :=
-  GroupAgg.results encAggregator (normRows rows)
+  GroupPart.results encAggregator (normRows rows)
 
 end DrvKeys
